@@ -663,7 +663,7 @@ func c04Histories(c *run.Ctx, s *model.Schema, sdl string, g *model.Graph, types
 		"w": {map[string]interface{}{"x": 1.5}, map[string]interface{}{"x": 2.5, "z": "zz"}, nil, map[string]interface{}{"x": 1e39}, map[string]interface{}{"z": "no x"}},
 	}
 	n, steps := 0, 0
-	reps := c.N(12, 200)
+	reps := c.N(12, 1200)
 	for _, bk := range []string{"iface", "any"} {
 		h, err := back.Build(bk, s, sdl, g)
 		if err != nil {
@@ -953,7 +953,7 @@ type kennelRoot struct{ Query *kennelQuery }
 // data changed). Whatever the order, no resolver may receive an argument its own type does not declare, or be invoked
 // without one it requires; when that cannot be honoured there must be an error.
 func c04Kennel(c *run.Ctx) int {
-	n := c.N(400, 5000)
+	n := c.N(400, 40000)
 	reqs := []string{
 		`{ pets { name(limit: 3) } }`, `{ pets { name(limit: 3, tag: "x") } }`, `{ pets { name } }`, `{ anys { ... on KNamed { name(limit: 2) } } }`,
 		`{ pets { ...F } } fragment F on KNamed { name(limit: 1) }`, `query($l: Int = 4) { pets { name(limit: $l) } anys { ... on KCat { name(limit: $l) } ... on KEel { name(limit: $l) } } }`,
